@@ -425,12 +425,28 @@ def run_case(c, case):
         pl = case.get("plan")
         if pl:
             plan = ir.SteadyPlan(m)
+
+            def shaped(names, salt):
+                """the same names handed over as a tuple, a list, a generator, an iterator, dict keys or one string at a time
+                (Iterable[str] | str); the shape follows from the names so that a replay takes the same route"""
+                names = list(names)
+                k = (sum(len(n_) for n_ in names) + salt) % 6
+                c_ = rt.ctx()
+                if c_ is not None:
+                    c_.note("plan-names-as:" + ("tuple", "list", "generator", "iterator", "dict-keys", "single-strings")[k])
+                if k == 5:
+                    return [n_ for n_ in names]
+                return [(tuple(names), list(names), (n_ for n_ in names), iter(names), dict.fromkeys(names).keys())[k]]
+
             if pl.get("fix_level"):
-                plan.fix_level(tuple(pl["fix_level"]))
+                for arg in shaped(pl["fix_level"], 0):
+                    plan.fix_level(arg)
             if pl.get("fix_change"):
-                plan.fix_change(tuple(pl["fix_change"]))
+                for arg in shaped(pl["fix_change"], 1):
+                    plan.fix_change(arg)
             if pl.get("endogenize"):
-                plan.endogenize(tuple(pl["endogenize"]))
+                for arg in shaped(pl["endogenize"], 2):
+                    plan.endogenize(arg)
             for a, b in pl.get("swap", []):
                 plan.swap((a, b))
                 m.assign(**{a: case["steady"][a][0] * pl["scale"]})
